@@ -95,6 +95,8 @@ STRESS = [
 
 def gen(tier, rnd):
     L = list(STRESS)
+    # the inputs of one variadic whenAll fulfilled by different threads at the same moment, round after round
+    for n in (4, 2, 3): L.append('allmt %d %d' % (n, 20000 if tier == 'quick' else 150000))
     n = 400 if tier == 'quick' else 8000
     for _ in range(n):
         b = Builder(rnd)
@@ -123,6 +125,14 @@ def oracle(line, out):
     """direct statement of C11 on the implementation's log"""
     if any(x in out for x in BAD):
         return ('crash', 'implementation aborted/hung or rejected the program: ' + out[:120])
+    if line.startswith('allmt'):
+        f = dict(kv.split('=', 1) for kv in out.split(' ') if '=' in kv)
+        r = f.get('rounds')
+        if f.get('repeated') != '0': return ('at-most-once', 'the continuation of a whenAll whose inputs were fulfilled by %s threads ran more than once in %s of %s rounds' % (line.split()[1], f.get('repeated'), r))
+        if f.get('never') != '0' or f.get('once') != r: return ('exactly-when-fulfilled', 'the continuation of a fulfilled whenAll did not run in %s of %s rounds' % (f.get('never'), r))
+        if f.get('wrongvalues') != '0': return ('value', 'the continuation of a whenAll got wrong values in %s rounds' % f.get('wrongvalues'))
+        if f.get('thrown') != '0': return ('internal-throw', 'fulfilling a pending input of a whenAll threw in %s of %s x %s calls: the combined promise was settled more than once' % (f.get('thrown'), r, line.split()[1]))
+        return None
     if 'LIFETIME-DIFF' in out:
         return ('lifetime', 'what runs depends on which handles the program still holds: with every handle dropped after its last use %s, with all handles kept %s'
                 % (out.split(' LIFETIME-DIFF')[0], out.split('LIFETIME-DIFF')[1]))
@@ -220,12 +230,13 @@ def oracle(line, out):
     return None
 
 def classify(line, out):
+    if line.startswith('allmt'): return ('allmt', line.split()[1], out.split(' once=')[-1])
     ops = line.split(' ', 1)[1].split(' ; ')
     sig = (line.split(' ', 1)[0],) + tuple(o.split()[0] + (o.split()[3][:3] if o.startswith('then') else '') for o in ops)
     return (sig, out.split(' | ')[2] if ' | ' in out else out[:10])
 
 RULE = ('well-typed programs over the promise API: 1..3 initial promises (pending/resolved/rejected), then 1..12 operations drawn from then (value/void/promise-returning x rethrow/ignore/custom handler), '
-        'whenAll (variadic and iterator-range) / whenAny over 1..4 inputs, resolve/reject (incl. double settlement), attached before or after settlement; plus a stress list; '
+        'whenAll (variadic and iterator-range) / whenAny over 1..4 inputs, resolve/reject (incl. double settlement), attached before or after settlement; plus a stress list; the inputs of a variadic whenAll (2..4) fulfilled by as many threads at the same moment, 20000 (thorough 150000) rounds each (real threads, spin barrier: sampling of the interleavings, not enumeration); '
         'every program is run twice: `prog` keeps every handle to the end (final states compared), `progd` lets go of every promise object / resolver / rejection right after its last use (answers and log compared). non-trivial = distinct (operation signature, final states)')
 ASSUME = ['single-threaded (cross-thread interleavings are C12)', 'callbacks do not throw', 'a promise returned by a promise-returning callback is used for nothing else',
           'whenAll values are compared through an order-sensitive encoding (sum of v_i * 100^i)']
